@@ -6,6 +6,7 @@ validation (harness oracle).  The only Lean content is that the documents the of
 what the reference loader reads (C14), which the driver re-evaluates on every request.
 -/
 import SuccinctlyVerif.Proof.YamlRoundTrip
+import SuccinctlyVerif.Proof.YamlRefDocs
 namespace SV.Props.C29
 open SV SV.YamlRef
 
@@ -14,8 +15,14 @@ containing the offset evaluates, over the loaded documents, to the token's node.
 def locate_sound_yaml_full_statement : Prop :=
   ∀ (s : PStream), admissible s = true → loadRef (render s) = .ok s.trees
 
-/-- Partial (layer 1 of C14 only): the documents a flow / double-quoted stream's offsets refer to
-are the trees the reference loader returns. -/
+/-- The Lean content of C29, now for every request: the documents a generated stream's offsets refer
+to are the trees the reference loader returns (C14 `render_load`; this is the statement named "full"
+above — the locator's path reconstruction itself is not modelled). -/
+theorem located_documents_are_loaded : locate_sound_yaml_full_statement := by
+  intro s ha
+  rw [loadRef_render]; exact loadChars_admissible s ha
+
+/-- The first round's statement (layer 1 of C14 only), kept. -/
 theorem locate_sound_yaml_partial (n : PNode) (g : Nat) (b : Break) (h : n.l1 = true) :
     loadRef (render { l1Stream n g with br := b }) = .ok [n.tree] := by
   rw [loadRef_render]; exact loadChars_l1_breaks n h g b
